@@ -112,6 +112,9 @@ def gen_message(rng, index, timed):
     action = {'act': 'rpc' if rng.random() < 0.7 else 'bcast', 'intent': intent}
     if intent in ('pause', 'kill'):
         action['msg'] = f'{intent}-m{index}'
+    if intent in ('pause', 'kill', 'play') and rng.random() < 0.15:
+        action['raw'] = True  # bare {'intent': ...} message
+        action.pop('msg', None)
     if action['act'] == 'rpc':
         action['via'] = rng.choice(['async', 'async', 'thread'])
     if timed:
@@ -146,6 +149,11 @@ def random_case(rng, tier):
             schedule.append(action)
     elif flavour == 'subtimeout':
         opts['subscribe_timeouts'] = rng.choice([['rpc'], ['broadcast'], ['rpc', 'broadcast']])
+    if flavour != 'subtimeout' and rng.random() < 0.25:
+        # the controlled process is one recreated from a checkpoint with the communicator in its load context (what a
+        # launcher's continue task does), saved right after construction or at its first rest
+        from simkit import persist
+        opts['via_bundle'] = {'medium': rng.choice(persist.MEDIA), 'after': rng.choice(['created', 'rest'])}
     return {'program': program, 'schedule': schedule, 'opts': opts, 'flavour': flavour}
 
 
@@ -207,6 +215,8 @@ def run(case):
     result = Result()
     flavour = case.get('flavour', 'quiescent')
     result.counters[f'flavour:{flavour}'] += 1
+    if case['opts'].get('via_bundle'):
+        result.counters[f'restored_process:{case["opts"]["via_bundle"]["after"]}:{case["opts"]["via_bundle"]["medium"]}'] += 1
     first = _run_once(case, result, direct=False)
     if first is None:
         return result
@@ -445,7 +455,8 @@ def _oracle_single(case, engine, proc, communicator, data, result, late_reply, c
             continue
         if outcome == ('cancelled',):
             result.counters['probe:reply_cancelled'] += 1
-        if intent in ('pause', 'kill') and flavour in ('timed', 'quiescent'):
+        if intent in ('pause', 'kill') and flavour in ('timed', 'quiescent') and action.get('msg') is not None:
+            # (the handler's call is identified by its unique text: bare messages without text are judged by the twin run)
             handler_values = by_text.get((intent, action.get('msg')), [])
             if handler_values:
                 expected = [_normal(comm.unwrap(v)) if not (isinstance(v, tuple) and v and v[0] == 'raised')
@@ -470,7 +481,9 @@ def _oracle_single(case, engine, proc, communicator, data, result, late_reply, c
             result.violate('remote_kill_lost', final, f'a kill request handled while the process was live left it {final}')
 
     # -- announcements ----------------------------------------------------------------------------------------
-    expected = ['state_changed.None.created'] + [f'state_changed.{frm}.{to}' for frm, to in engine.transitions]
+    # (a process recreated from a checkpoint enters no state when it is loaded: its first announcement is its next transition)
+    expected = ([] if case['opts'].get('via_bundle') else ['state_changed.None.created']) \
+        + [f'state_changed.{frm}.{to}' for frm, to in engine.transitions]
     sent = [(s, sender) for s, sender, _ in data['sent'] if str(s).startswith('state_changed')]
     if [s for s, _ in sent] != expected:
         result.violate('broadcast_sequence', 'sent', f'announced {[s for s, _ in sent]}, completed transitions {expected}')
